@@ -15,6 +15,12 @@ claimed = {
  "C11": "formatPath/simpleFmtPath proved equal to an independent single-pass normaliser for all strings up to the bound; static route reached iff normal forms agree (with and without group prefix, strict on/off)",
  "C13": "method-name and variable-regex acceptance proved against their specifications for all byte strings up to the bound; catalogue of invalid definitions rejected; lookup on accepted tables proved panic-free for arbitrary method/path bytes under all option sets",
  "C14": "one LRU operation from an arbitrary valid cache state (constructed through the real code, symbolic aliasing keys) proved equal to a list model incl. representation invariant; router clause: entry present under method+path after a dynamic match and repeat served from cache",
+ "C04": "registration programs (nested groups, Use at every point, route/later middleware, custom or default fallbacks) are executed on the real code and the handler trace of every request is proved equal to the onion trace computed from the program text; cursor arithmetic on chains up to 20; known finding D8 (int8 cursor overflow) reported as KNOWN-FINDING",
+ "C05": "abort scenarios over all positions/times/APIs with a symbolic status code; one step of Next() from an arbitrary int8 cursor state (solver variable); long chains up to the registration limit; known finding D9 reported as KNOWN-FINDING",
+ "C06": "decision list (direct, HEAD->GET, fallback route, 405 with exact allowed set, 404) proved against the independent pattern specification for all paths up to the bound over tables x 16 option sets, through QuickMatch and through ServeHTTP (status, Allow header); InterceptAll proved equal to a twin router queried with the target",
+ "C08": "one operation of the response-writer state machine from an arbitrary valid state (status, length, ghost counters are solver variables; short writes and write errors symbolic) re-establishes the invariant and the per-operation post-conditions; K-operation sequences through a real request as cross-check",
+ "C09": "every crash point of route/NotFound/NotAllowed chains x hook behaviours (symbolic status): containment, single hook run, recovered value, single commit with the hook's status, propagation without hook, and a following request observing a pristine context; PanicsHandler containment",
+ "C10": "the pooled context is havocked field by field (cursor, status, length symbolic) and the first handler of the next request is proved to observe a pristine context for static, dynamic, 404 and 405 requests",
 }
 reasons_pending = "check under construction in this session (engine built, harness not yet registered)"
 
